@@ -450,29 +450,30 @@ func runSolverCtx(parent context.Context, sd solverDef, file string, timeoutMS i
 }
 
 func parseResults(out string) []string {
-	// a solver error reported before a verdict invalidates that verdict (an ill-formed script must never be
-	// read as an answer); errors after the last verdict (e.g. get-model after unsat) are harmless
+	// A solver error reported before a verdict invalidates that verdict AND EVERY LATER ONE of the same run: an
+	// ill-formed script must never be read as an answer, and a command that was cancelled by the timeout timer
+	// ("push canceled", "canceled" on an assert) leaves the assertion stack in an unknown state -- a cancelled
+	// (push) lets the following (assert (not goal)) leak into the base level, after which later goals look proved.
+	// Errors after the last verdict (get-model after unsat) are harmless.
 	var rs0 []string
-	pendingErr := false
+	tainted := false
 	for _, ln := range strings.Split(out, "\n") {
 		l := strings.TrimSpace(ln)
 		switch {
-		case strings.HasPrefix(l, "(error") && strings.Contains(l, "timeout"):
-			rs0 = append(rs0, "timeout")
 		case strings.HasPrefix(l, "(error"):
-			if strings.Contains(l, "model is not available") || strings.Contains(l, "Cannot get model") || strings.Contains(l, "canceled") {
+			if strings.Contains(l, "model is not available") || strings.Contains(l, "Cannot get model") {
 				continue
 			}
-			pendingErr = true
+			tainted = true
 		case l == "sat" || l == "unsat" || l == "unknown" || l == "timeout":
-			if pendingErr {
+			if tainted {
 				rs0 = append(rs0, "error")
 			} else {
 				rs0 = append(rs0, l)
 			}
 		}
 	}
-	if pendingErr && len(rs0) == 0 {
+	if tainted && len(rs0) == 0 {
 		return []string{"error"}
 	}
 	return rs0
